@@ -147,6 +147,18 @@ pub fn run(name: &str) -> Option<bool> {
             let without = crate::outcome::run(&p, &bytes(&["sub", "--help"]));
             with_req.is_stdout() && !without.is_stdout()
         }
+        // C16: a backslash in text that becomes a .SS/.SH/.TH argument was copied unescaped
+        "roff_macro_argument_backslash" => {
+            let o = OptSpec::plain(Spec::Seq(vec![Spec::wrap(
+                W::GroupHelp("group \\fZ header".to_string()),
+                2,
+                item(1, Names::long("alpha"), Leaf::Switch),
+            )]));
+            let p = build_options(&o);
+            let doc = p.render_manpage("app", bpaf::doc::Section::General, None, None, None);
+            doc.lines()
+                .any(|l| l.starts_with(".SS") && l.to_lowercase().contains("\\fz"))
+        }
         _ => return None,
     })
 }
